@@ -101,7 +101,7 @@ func C11(c *ev.Ctx) {
 	c.Cov.Evaluations = int64(len(cases))
 	c.Cov.DistinctNontrivial = int64(len(combos))
 	c.Cov.Exhaustive = true
-	c.Cov.Rule = "full product of builder inputs: operation type x 5 key types / signature algorithms x SHA-256/SHA-512 x window (none, anchorFrom only, from+until) x patch list class (one patch, two patches, opaque document / JSON patch) x anchor origin (none, string, object) x signing-key nonce; each request is built by the real client library, parsed by a real parser whose protocol enables exactly that algorithm, compared field by field with the inputs, then anchored inside its window and resolved by the real processor; the result must equal the SidetreeCore state change computed by TLC. Non-trivial count: distinct (type, key type, hash) combinations."
+	c.Cov.Rule = "full product of builder inputs: operation type x 5 key types / signature algorithms x SHA-256/SHA-512 x window (none, anchorFrom only, from+until) x patch list class (one patch, two patches, opaque document / JSON patch) x anchor origin (none, string, object) x signing-key nonce; each request is built by the real client library, parsed by a real parser whose protocol enables exactly that algorithm, compared field by field with the inputs, then anchored inside its window and resolved by the real processor; the result must equal the SidetreeCore state change computed by TLC and carry the anchor origin the create / recover supplied (the DID's previous one after an update). Non-trivial count: distinct (type, key type, hash) combinations."
 	c.Finish("model_checking")
 }
 
@@ -135,7 +135,8 @@ func runClientCase(cs *clientCase) (string, interface{}) {
 	ukJWK, ukC, ukRV := jwkOf(4)
 	baseDelta := &model.DeltaModel{UpdateCommitment: ukC, Patches: concr.DeltaPatches("ok", 10)}
 	bdh, _ := hashing.CalculateModelMultihash(baseDelta, hash)
-	baseSD := &model.SuffixDataModel{DeltaHash: bdh, RecoveryCommitment: rkC}
+	const baseOrigin = "https://base-origin.example.com"
+	baseSD := &model.SuffixDataModel{DeltaHash: bdh, RecoveryCommitment: rkC, AnchorOrigin: baseOrigin}
 	suffix, _ := hashing.CalculateModelMultihash(baseSD, hash)
 	baseCreate, _ := canonicalizer.MarshalCanonical(&model.CreateRequest{Operation: operation.TypeCreate, SuffixData: baseSD, Delta: baseDelta})
 
@@ -281,6 +282,16 @@ func runClientCase(cs *clientCase) (string, interface{}) {
 	}
 	if !got.Equal(cs.Out.View) {
 		return "effect-differs-from-spec", map[string]interface{}{"observed": got, "request": string(req)}
+	}
+	// the anchor origin is part of the state a create / recover sets (an update leaves the DID's origin alone)
+	if rerr == nil {
+		var wantOrigin interface{} = baseOrigin
+		if cs.C.Ty == "C" || cs.C.Ty == "R" {
+			wantOrigin = origin
+		}
+		if cs.C.Ty != "D" && !reflect.DeepEqual(rm.AnchorOrigin, wantOrigin) {
+			return "effect-anchor-origin", map[string]interface{}{"observed": rm.AnchorOrigin, "expected": wantOrigin, "request": string(req)}
+		}
 	}
 	return "", nil
 }
